@@ -237,6 +237,10 @@ func init() {
 	C("BindQuery", "", func(e *env) { e.ctx.BindQuery(&bindTarget{}) })                 //nolint:errcheck
 	C("Validate", "", func(e *env) { e.ctx.Validate(&bindTarget{}) })                   //nolint:errcheck
 	C("Body", "", func(e *env) { e.ctx.Body() })                                        //nolint:errcheck
+	// read-only by contract, but they take the context's lock: a lock left held is state that survives recycling
+	C("Copy", "", func(e *env) { _ = e.ctx.Copy() })
+	C("ForEachKey", "", func(e *env) { e.ctx.ForEachKey(func(string, interface{}) {}) })
+	C("Get", "", func(e *env) { e.ctx.Get("c09") })
 	C("Data", "", func(e *env) { e.ctx.Data(201, "application/c09", []byte("c09-data")) })
 	C("Error", "", func(e *env) { e.ctx.Error(errors.New("c09-err")) }) //nolint:errcheck
 	C("Exile", "", func(e *env) { e.ctx.Exile() })
